@@ -675,7 +675,7 @@ func runBridgeCase(t *testing.T, r *Rec, prop string, nops int) {
 			ethH := e.ethHeight
 			n := e.valNonce + 1
 			okc := e.voteAll(func(o sdk.AccAddress) sdk.Msg {
-				return &skytypes.MsgBatchSendToRemoteClaim{EventNonce: n, EthBlockHeight: ethH, BatchNonce: uint64(nonce), TokenContract: e.erc20[tk-1], ChainReferenceId: skyChain, Orchestrator: o.String(), Metadata: e.meta(o), SkywayNonce: n, CompassId: skyCompass}
+				return &skytypes.MsgBatchSendToRemoteClaim{EventNonce: 3*n + 1000, EthBlockHeight: ethH, BatchNonce: uint64(nonce), TokenContract: e.erc20[tk-1], ChainReferenceId: skyChain, Orchestrator: o.String(), Metadata: e.meta(o), SkywayNonce: n, CompassId: skyCompass}
 			})
 			if okc == len(skykeeper.ValAddrs) {
 				e.valNonce = n
@@ -700,7 +700,7 @@ func runBridgeCase(t *testing.T, r *Rec, prop string, nops int) {
 			}
 			n := e.valNonce + 1
 			okc := e.voteAll(func(o sdk.AccAddress) sdk.Msg {
-				return &skytypes.MsgSendToPalomaClaim{EventNonce: n, EthBlockHeight: e.ethHeight, TokenContract: contract, Amount: amt, EthereumSender: "0x00000000000000000000000000000000000000bb", PalomaReceiver: recvS, Orchestrator: o.String(), ChainReferenceId: skyChain, Metadata: e.meta(o), SkywayNonce: n, CompassId: skyCompass}
+				return &skytypes.MsgSendToPalomaClaim{EventNonce: 3*n + 1000, EthBlockHeight: e.ethHeight, TokenContract: contract, Amount: amt, EthereumSender: "0x00000000000000000000000000000000000000bb", PalomaReceiver: recvS, Orchestrator: o.String(), ChainReferenceId: skyChain, Metadata: e.meta(o), SkywayNonce: n, CompassId: skyCompass}
 			})
 			if okc == len(skykeeper.ValAddrs) {
 				e.valNonce = n
@@ -1224,7 +1224,7 @@ func brTwoChainScenario(t *testing.T, r *Rec, rounds, nops int) {
 				e.ethHeight += uint64(1 + r.Rng.Intn(20))
 				ethH := e.ethHeight
 				okc := e.voteAll(func(o sdk.AccAddress) sdk.Msg {
-					return &skytypes.MsgBatchSendToRemoteClaim{EventNonce: n, EthBlockHeight: ethH, BatchNonce: uint64(bb.nonce), TokenContract: bb.raw.TokenContract.GetAddress().Hex(), ChainReferenceId: ch, Orchestrator: o.String(), Metadata: e.meta(o), SkywayNonce: n, CompassId: compass[ch]}
+					return &skytypes.MsgBatchSendToRemoteClaim{EventNonce: 3*n + 1000, EthBlockHeight: ethH, BatchNonce: uint64(bb.nonce), TokenContract: bb.raw.TokenContract.GetAddress().Hex(), ChainReferenceId: ch, Orchestrator: o.String(), Metadata: e.meta(o), SkywayNonce: n, CompassId: compass[ch]}
 				})
 				if okc != len(skykeeper.ValAddrs) {
 					if okc != 0 {
@@ -1775,7 +1775,7 @@ func brRebindScenario(t *testing.T, r *Rec, rounds, nops int) {
 				e.ethHeight += uint64(1 + r.Rng.Intn(20))
 				ethH := e.ethHeight
 				okc := e.voteAll(func(o sdk.AccAddress) sdk.Msg {
-					return &skytypes.MsgBatchSendToRemoteClaim{EventNonce: n, EthBlockHeight: ethH, BatchNonce: uint64(bb.nonce), TokenContract: e.erc20[bb.tok-1], ChainReferenceId: skyChain, Orchestrator: o.String(), Metadata: e.meta(o), SkywayNonce: n, CompassId: skyCompass}
+					return &skytypes.MsgBatchSendToRemoteClaim{EventNonce: 3*n + 1000, EthBlockHeight: ethH, BatchNonce: uint64(bb.nonce), TokenContract: e.erc20[bb.tok-1], ChainReferenceId: skyChain, Orchestrator: o.String(), Metadata: e.meta(o), SkywayNonce: n, CompassId: skyCompass}
 				})
 				if okc != len(skykeeper.ValAddrs) {
 					if okc != 0 {
